@@ -38,6 +38,9 @@ func genC10(t *rapid.T) *Case {
 	}
 	if c.Cfg.Dir == "rev" && rapid.IntRange(0, 2).Draw(t, "then_stop") == 0 {
 		c.Events = append(c.Events, Event{Kind: "stop", After: at + rapid.IntRange(1, 120).Draw(t, "stop_after"), AtStep: true})
+	} else if c.Cfg.Dir == "rev" && rapid.IntRange(0, 2).Draw(t, "graceful_again") == 0 {
+		// a second GracefulStop while the first is still waiting (two components shutting the same server down)
+		c.Events = append(c.Events, Event{Kind: "graceful_stop", After: at + rapid.IntRange(1, 20).Draw(t, "again_after"), AtStep: true})
 	}
 	c.Tape = genTape(t, 0, 300)
 	return c
@@ -60,7 +63,7 @@ func monC10(c *Case, tr *Trace) []Violation {
 	}
 	stopFired := -1
 	var stop *EventRec
-	if len(tr.Events) > 1 && tr.Events[1].Fired >= 0 {
+	if len(tr.Events) > 1 && len(c.Events) > 1 && c.Events[1].Kind == "stop" && tr.Events[1].Fired >= 0 {
 		stop = tr.Events[1]
 		stopFired = stop.Fired
 	}
@@ -157,6 +160,12 @@ func monC10(c *Case, tr *Trace) []Violation {
 			add("graceful_stop_never_returns", drain2, "every accepted RPC had finished by step %d and the run was drained, but GracefulStop had not returned (returned at %d, i.e. only when the harness ended the tunnel)", lastAcceptedFinish, sd.Returned)
 		}
 	}
+	for j := 1; j < len(tr.Events) && j < len(c.Events); j++ {
+		e := tr.Events[j]
+		if c.Events[j].Kind == "graceful_stop" && e.Fired >= 0 && e.Returned >= 0 && !e.PendingAtEnd && (!allAcceptedFinished || e.Returned < lastAcceptedFinish) && e.Returned < tr.PhaseStart["end"] {
+			add("graceful_stop_returned_early", e.Returned, "a second GracefulStop (called at step %d) returned at step %d while an accepted RPC was unfinished (last finish at step %d, all finished: %v)", e.Fired, e.Returned, lastAcceptedFinish, allAcceptedFinished)
+		}
+	}
 	if stop != nil && stop.Returned >= 0 {
 		for _, t := range tr.Tunnels {
 			if t.Opened && (t.ServeReturned < 0 || t.ServeReturned > stop.Returned) {
@@ -232,6 +241,10 @@ func genC10Late(t *rapid.T) *Case {
 		c.Events = append(c.Events, Event{Kind: "graceful_stop", After: g, AtStep: true})
 	}
 	c.Events = append(c.Events, Event{Kind: "stop", After: stopAt, AtStep: true})
+	if rapid.IntRange(0, 3).Draw(t, "stop_again") == 0 {
+		// a second, overlapping Stop (judged like the first: it returns only after every Serve call has returned)
+		c.Events = append(c.Events, Event{Kind: "stop", After: stopAt + rapid.IntRange(0, 2).Draw(t, "stop_again_delta"), AtStep: true})
+	}
 	if rapid.IntRange(0, 3).Draw(t, "second_serve") == 0 {
 		c.Events = append(c.Events, Event{Kind: "serve_more", After: stopAt + rapid.IntRange(0, 3).Draw(t, "serve2_delta"), AtStep: true})
 	}
@@ -258,14 +271,21 @@ func monC10Late(c *Case, tr *Trace) []Violation {
 	for _, p := range tr.Panics {
 		add("panic", 0, "%s", p)
 	}
-	var stop *EventRec
-	for _, e := range tr.Events {
-		if e.Kind == "stop" && e.Fired >= 0 {
-			stop = e
+	for _, stop := range tr.Events {
+		if stop.Kind != "stop" || stop.Fired < 0 {
+			continue
 		}
+		vs = append(vs, judgeStop(c, tr, stop)...)
 	}
-	if stop == nil {
-		return vs
+	return vs
+}
+
+// judgeStop: the clauses of "Stop returns only after every Serve call has returned and all in-flight handlers have been
+// cancelled", for one Stop call (there may be several, overlapping).
+func judgeStop(c *Case, tr *Trace, stop *EventRec) []Violation {
+	var vs []Violation
+	add := func(class string, step int, f string, a ...any) {
+		vs = append(vs, Violation{Prop: "C10", Class: class, Step: step, Details: fmt.Sprintf(f, a...)})
 	}
 	if stop.Returned < 0 || stop.PendingAtEnd {
 		add("stop_never_returned", stop.Fired, "Stop called at step %d never returned", stop.Fired)
